@@ -63,7 +63,7 @@ let main file =
                            let (recs, _) = Jaeger_driver.take_records (int_of_string n) rest [] in
                            if recs <> [] then incr nontriv;
                            (match rtoks with
-                            | "panic" :: _ -> false
+                            | "panic" :: _ | "hang" :: _ -> false
                             | k :: rest ->
                               let rec bodies k toks acc = if k = 0 then List.rev acc else
                                   (match toks with
@@ -80,7 +80,7 @@ let main file =
                            let (recs, _) = Jaeger_driver.take_records (int_of_string n) rest [] in
                            if recs <> [] then incr nontriv;
                            (match rtoks with
-                            | "panic" :: _ -> false
+                            | "panic" :: _ | "hang" :: _ -> false
                             | k :: rest -> let (exports, ok) = take_exports (int_of_string k) rest [] true in ok && p_C19_otel recs exports
                             | [] -> false)
                          | _ -> false
